@@ -258,13 +258,9 @@ inductive Pc where
   | sj_obs (n : Notif)
   /-- `p_next` → `SubscriberThreads::next` → `MutArc<Option<O>>::next`: `if let Some(o) = &mut *self.rc_deref_mut()` -/
   | sj_slot (v : Val)
-  /-- `filter(|o| !o.p_is_closed())` → `is_finished()`: `self.rc_deref().as_ref().map_or(true, …)` -/
-  | sj_fslot (t : Notif)
-  /-- … `|o| o.is_finished()` → `…Observer::is_finished` → `self.observer.is_finished()` (downstream slot) -/
-  | sj_fdown (t : Notif)
-  /-- `|| self.is_closed()`: `self.0.rc_deref().is_none()` -/
-  | sj_cslot (t : Notif)
-  /-- `p_error` / `p_complete` → `MutArc<Option<O>>::{error, complete}`: `if let Some(o) = self.rc_deref_mut().take()` -/
+  /-- `p_error` / `p_complete` → `MutArc<Option<O>>::{error, complete}`: `if let Some(o) = self.rc_deref_mut().take()`
+      (every entry: the three acquisitions of `filter(|o| !o.p_is_closed())` — slot, downstream slot, slot —
+      went with `fix: Subject::error/complete hand the terminal to every subscriber`) -/
   | sj_tslot (t : Notif)
   -- DebounceObserver::next ------------------------------------------------------------------
   /-- `*self.trailing_value.rc_deref_mut() = Some(value)` -/
@@ -337,8 +333,8 @@ inductive Pc where
 def Pc.cell : Pc → Option Cell
   | .sj_load _ | .sj_obs _ => some .obs
   | .sj_chamber _ => some .chamber
-  | .sj_slot _ | .sj_fslot _ | .sj_cslot _ | .sj_tslot _ | .u_slot _ => some .slot
-  | .sj_fdown _ | .tc_dnext _ | .tc_down | .te_down _ | .th_ldown _ | .p_down _ _ _ | .p_emit _ _ _ => some .down
+  | .sj_slot _ | .sj_tslot _ | .u_slot _ => some .slot
+  | .tc_dnext _ | .tc_down | .te_down _ | .th_ldown _ | .p_down _ _ _ | .p_emit _ _ _ => some .down
   | .db_trail _ | .th_trail _ | .th_ltrail _ | .tc_trail | .p_trail _ _ => some .trail
   | .db_hcell | .hc_store _ | .th_hcell _ | .tc_hcell | .te_hcell | .u_hcell _ => some .hcell
   | .dl_retain _ | .dl_append _ | .u_multi _ => some .multi
@@ -349,8 +345,7 @@ def Pc.cell : Pc → Option Cell
 
 /-- The guards alive while a thread stands at this program counter. -/
 def Pc.holds : Pc → List Cell
-  | .sj_chamber _ | .sj_slot _ | .sj_fslot _ | .sj_cslot _ | .sj_tslot _ => [.obs]
-  | .sj_fdown _ => [.obs, .slot]
+  | .sj_chamber _ | .sj_slot _ | .sj_tslot _ => [.obs]
   | .db_trail _ | .db_hcell | .hc_store _ | .th_trail _ | .th_hcell _ | .th_ltrail _ | .th_ldown _
   | .tc_trail | .tc_hcell | .tc_down | .te_down _ | .te_hcell | .dl_retain _ | .dl_append _
   | .dl_late _ => [.obs, .slot]
@@ -452,12 +447,9 @@ def step (K : Conf) (s : St) : Pc → St × Pc
     match n with
     | .next v => (s, if s.subjLive && s.inObs then .sj_slot v else .fin)
     | t =>
-      if s.subjLive then ({ s with subjLive := false, inObs := false }, if s.inObs then .sj_fslot t else .fin)
+      if s.subjLive then ({ s with subjLive := false, inObs := false }, if s.inObs then .sj_tslot t else .fin)
       else (s, .fin)
   | .sj_slot v => (s, if s.slotOpen then nextEntry K v else .fin)
-  | .sj_fslot t => (s, if s.slotOpen then .sj_fdown t else .fin)
-  | .sj_fdown t => (s, if s.downOpen then .sj_cslot t else .fin)
-  | .sj_cslot t => (s, if s.slotOpen then .sj_tslot t else .fin)
   | .sj_tslot t => if s.slotOpen then ({ s with slotOpen := false }, termEntry K t) else (s, .fin)
   -- debounce
   | .db_trail v => ({ s with trailing := some v }, .db_hcell)
